@@ -391,6 +391,10 @@ func (w *worker) newKey(special bool) string {
 	}
 	if special {
 		head = fmt.Sprintf("%c%03d +%%é=&", letter, j)
+		if w.rng.Intn(2) == 0 {
+			// literal percent signs followed by two hex digits: the key is these characters, not what they would decode to
+			head = fmt.Sprintf("%c%03d %%41%%2Fx%%20%%25+&", letter, j)
+		}
 	}
 	var sb strings.Builder
 	sb.WriteString(head)
@@ -610,7 +614,7 @@ func (w *worker) scenario(s slot) {
 	case "put":
 		switch v {
 		case "ok":
-			w.putObject(w.root, v, b, w.newKey(w.nkey < 14 && w.rng.Intn(5) == 0), nil)
+			w.putObject(w.root, v, b, w.newKey(w.nkey < 14 && w.rng.Intn(3) == 0), nil)
 		case "missing-bucket":
 			w.putObject(w.root, v, m, w.newKey(false), nil)
 		case "bad-digest":
